@@ -3,7 +3,7 @@ Thin: Names and full operations share the selection; filters are compared
 case-insensitively; class filters include subclasses."""
 import ast
 
-from ..model import AnalysisError, walk_no_nested, dotted, norm
+from ..model import AnalysisError, walk_no_nested, dotted, norm, const_str
 from .. import names
 from ..ops import OPS
 
@@ -63,6 +63,8 @@ def run(repo, rep, tier):
     shadow_copy_rule(repo, rep)
     no_memoised_repository_reads(repo, rep)
     adapters_forward_every_filter(repo, rep)
+    results_are_stamped_on_copies(repo, rep)
+    adapter_keys_agree(repo, rep, 'C13.R10', lambda op: 'Associator' in op or 'Reference' in op, 30)
     mp = repo.cls(MAIN, 'MainProvider')
 
     def scope(f):
@@ -730,3 +732,160 @@ def adapters_forward_every_filter(repo, rep):
     if r7.sites < 8:
         raise AnalysisError('C13.R7: only %d association adapters'
                             % r7.sites)
+
+
+def results_are_stamped_on_copies(repo, rep):
+    """C13.R9: the association operations complete what they return (host,
+    namespace) on copies.  The traversal helpers hand out the very path
+    objects stored as reference property values of the association
+    instances; a loop that assigns `x.host = ...` (or `x.path.host`) to the
+    elements of such a list writes into the repository - after the first
+    AssociatorNames() the stored references carry a host, no longer equal
+    the host-less paths of later requests, and References / Associators of
+    the same objects come back empty or fail with CIM_ERR_NOT_FOUND.  The
+    list iterated by a stamping loop must therefore be built from copies
+    (`p.copy()`, `deepcopy(p)`, a constructor call, or the copying reader
+    `_get_instance`)."""
+    r9 = rep.rule('C13.R9', 'results are completed (host / namespace) on '
+                  'copies, never on objects taken from the repository')
+    mp = repo.cls(MAIN, 'MainProvider')
+
+    def fresh_elem(e):
+        if isinstance(e, ast.Call):
+            d = dotted(e.func) or ''
+            if isinstance(e.func, ast.Attribute) and e.func.attr == 'copy' \
+                    and not e.args:
+                return True
+            if d.split('.')[-1] in ('deepcopy',):
+                return True
+            if d == 'self._get_instance':
+                return True         # copying reader (C10.R5)
+            if repo.find_class(d) is not None:
+                return True         # a new object
+        return False
+
+    def fresh_list(f, name):
+        defs = [n for n in walk_no_nested(f.node)
+                if isinstance(n, ast.Assign) and len(n.targets) == 1 and
+                isinstance(n.targets[0], ast.Name) and
+                n.targets[0].id == name]
+        if not defs:
+            return False
+        for d_ in defs:
+            v = d_.value
+            if isinstance(v, ast.ListComp) and fresh_elem(v.elt):
+                continue
+            if isinstance(v, ast.List) and not v.elts:
+                # filled by append(): every appended element is fresh
+                apps = [c for c in walk_no_nested(f.node)
+                        if isinstance(c, ast.Call) and
+                        isinstance(c.func, ast.Attribute) and
+                        c.func.attr == 'append' and
+                        norm(c.func.value) == name]
+                if apps and all(c.args and fresh_elem(c.args[0])
+                                for c in apps):
+                    continue
+            return False
+        return True
+    for name, f in sorted(mp.methods.items()):
+        for lp in walk_no_nested(f.node):
+            if not (isinstance(lp, ast.For) and
+                    isinstance(lp.target, ast.Name)):
+                continue
+            v = lp.target.id
+            stamps = []
+            for n in ast.walk(ast.Module(body=lp.body, type_ignores=[])):
+                if isinstance(n, ast.Attribute) and \
+                        isinstance(n.ctx, ast.Store):
+                    b = n.value
+                    while isinstance(b, ast.Attribute):
+                        b = b.value
+                    if isinstance(b, ast.Name) and b.id == v:
+                        stamps.append(n)
+            if not stamps:
+                continue
+            r9.sites += 1
+            r9.functions.add(f.fq)
+            it = lp.iter
+            ok = isinstance(it, ast.Name) and fresh_list(f, it.id)
+            r9.ob(ok, '%s|for %s in %s' % (name, v, norm(it, 40)),
+                  {'stamped': [norm(s_, 30) for s_ in stamps]})
+            if not ok:
+                rep.finding(r9, f.qualname, 'for %s in %s: %s = ...'
+                            % (v, norm(it, 40), norm(stamps[0], 30)),
+                            'stamped-in-place', MAIN, lp.lineno,
+                            '%s is assigned on the elements of %s, which is '
+                            'not evidently a list of copies: the objects '
+                            'stored in the repository (reference property '
+                            'values, instance paths) are changed, and later '
+                            'traversals that compare them with host-less '
+                            'paths miss them' % (norm(stamps[0], 30),
+                                                 norm(it, 40)))
+    if r9.sites < 3:
+        raise AnalysisError('C13.R9: only %d stamping loops found'
+                            % r9.sites)
+
+
+def adapter_keys_agree(repo, rep, rid, select, floor):
+    """The server-side adapters (_imeth_<Op>) hand each request parameter to
+    the provider method under its own name: a keyword `P=...` of the
+    provider call that reads a request parameter reads `params['P']` /
+    `params.get('P')` (directly or through a local / a converter).  Reading
+    another key (Role=params.get('ResultRole')) silently replaces what the
+    client sent by another parameter - or by None - in this one operation,
+    while its siblings and the traditional variant apply it."""
+    MOCKF = 'pywbem_mock/_wbemconnection_mock.py'
+    r = rep.rule(rid, 'adapters read each request parameter under the name '
+                 'of the provider parameter it is passed to')
+    mock = repo.cls(MOCKF, 'FakedWBEMConnection')
+    n_kw = 0
+    for n, f in sorted(mock.methods.items()):
+        if not n.startswith('_imeth_') or not select(n[len('_imeth_'):]):
+            continue
+        op = n[len('_imeth_'):]
+
+        def keys(e, depth=0):
+            out = set()
+            for x in ast.walk(e):
+                if isinstance(x, ast.Call) and \
+                        dotted(x.func) == 'params.get' and x.args:
+                    out.add(const_str(x.args[0]))
+                elif isinstance(x, ast.Subscript) and \
+                        norm(x.value) == 'params':
+                    out.add(const_str(x.slice))
+                elif isinstance(x, ast.Name) and depth < 2:
+                    for a in walk_no_nested(f.node):
+                        if isinstance(a, ast.Assign) and \
+                                len(a.targets) == 1 and \
+                                norm(a.targets[0]) == x.id:
+                            out |= keys(a.value, depth + 1)
+            return out
+        for c in walk_no_nested(f.node):
+            if not (isinstance(c, ast.Call) and
+                    (dotted(c.func) or '').endswith('.' + op)):
+                continue
+            r.functions.add(f.fq)
+            for k in c.keywords:
+                if not k.arg:
+                    continue
+                ks = keys(k.value)
+                if not ks:
+                    continue
+                n_kw += 1
+                r.sites += 1
+                ok = ks == {k.arg}
+                r.ob(ok, '%s|%s' % (n, k.arg), {'reads': sorted(
+                    x or '?' for x in ks)})
+                if not ok:
+                    rep.finding(r, f.qualname, '%s=%s' % (k.arg,
+                                                          norm(k.value, 50)),
+                                'wrong-request-key', MOCKF, k.value.lineno,
+                                'the provider parameter %s is filled from '
+                                'the request parameter(s) %s: what the '
+                                'client sent as %s is ignored in %s (the '
+                                'sibling adapters read %r)'
+                                % (k.arg, sorted(x or '?' for x in ks),
+                                   k.arg, op, k.arg))
+    if n_kw < floor:
+        raise AnalysisError('%s: only %d adapter keywords read a request '
+                            'parameter' % (rid, n_kw))
